@@ -44,12 +44,22 @@ def get_class(name):
     return getattr(pc, name)
 
 
-def size_ok(cls, size):
-    """Is `size` in the supported family of class `cls`?"""
+# open-boundary square / cubic lattices: a side of length 1 is a degenerate
+# but well-defined lattice (no periodic identification, no two-cell colouring)
+OPEN_LATTICES = ('Planar2DCode', 'RotatedPlanar2DCode', 'Planar3DCode',
+                 'RotatedPlanar3DCode', 'HollowPlanar3DCode')
+
+
+def size_ok(cls, size, thin=False):
+    """Is `size` in the supported family of class `cls`?  With thin=True
+    the open-boundary lattices also admit sides of length 1 (used by the
+    code-structure checks; decoders are not exercised there)."""
     if cls == 'Color666PlanarCode':
         return size[0] >= 1
     if cls in ('Color488Code', 'Color666ToricCode'):
         return all(L >= 1 for L in size)
+    if thin and cls in OPEN_LATTICES:
+        return all(L >= 1 for L in size) and max(size) >= 2
     if any(L < 2 for L in size):
         return False
     if cls in ('RhombicToricCode', 'Color3DCode'):
@@ -61,7 +71,7 @@ def size_ok(cls, size):
     return True
 
 
-def sizes(cls, max_L, max_L_2d=None, max_color=None):
+def sizes(cls, max_L, max_L_2d=None, max_color=None, thin=False):
     """All family sizes of `cls` with every L_i <= bound."""
     dim = DIM[cls]
     if cls == 'Color666PlanarCode':
@@ -73,10 +83,10 @@ def sizes(cls, max_L, max_L_2d=None, max_color=None):
         top = max_L_2d if max_L_2d is not None else max_L
     else:
         top = max_L
-    lo = 1 if cls in COLOR_2D else 2
+    lo = 1 if (cls in COLOR_2D or (thin and cls in OPEN_LATTICES)) else 2
     out = []
     for s in itertools.product(range(lo, top + 1), repeat=dim):
-        if size_ok(cls, s):
+        if size_ok(cls, s, thin=thin):
             out.append(s)
     return out
 
@@ -129,10 +139,10 @@ def n_estimate(cls, size):
 
 
 def all_code_cases(max_L, max_L_2d=None, max_color=None, max_n=None,
-                   classes=None, with_deformations=True):
+                   classes=None, with_deformations=True, thin=False):
     cases = []
     for cls in (classes or CODE_CLASSES):
-        for s in sizes(cls, max_L, max_L_2d, max_color):
+        for s in sizes(cls, max_L, max_L_2d, max_color, thin=thin):
             if max_n is not None and n_estimate(cls, s) > max_n:
                 continue
             defs = deformations(cls) if with_deformations else [(None, {})]
